@@ -41,7 +41,11 @@ EDGE = ['C[CH]C |^1:1|', '[CH3] |^1:0|', 'C[N](C)[O] |^1:3|', '[O]N=O |^1:0|', '
         'O[C@H]([C@@H](O)C(O)=O)C(O)=O', 'O[C@@H]([C@@H](O)C(O)=O)C(O)=O', 'C[C@H]1CC[C@@H](C)CC1', 'C[C@H]1CC[C@H](C)CC1',
         'C/C=C/C=C\\C', 'C/C=C/C=C/C', 'F/C=C/C=C\\F', 'C/C=C/CC/C=C\\C', 'CC=[C@]=CC', '[13CH3]C', '[2H]C([2H])O',
         'C[C@H](N)C(=O)O.C[C@@H](N)C(=O)O', 'OC1C(O)C(O)C(O)C(O)C1O', 'C1CC1.C1CCC1',
-        'N1C=CN2C=CC=C12', 'C1=CC2=CC=CC2=C1', 'O=C1C=CNC=C1', 'C1=CN=C2N1C=CS2', 'c1ccc2c(c1)[nH]c1ccccc12', 'CC(=O)C.O.[Na+].[Cl-]']
+        'N1C=CN2C=CC=C12', 'C1=CC2=CC=CC2=C1', 'O=C1C=CNC=C1', 'C1=CN=C2N1C=CS2', 'c1ccc2c(c1)[nH]c1ccccc12', 'CC(=O)C.O.[Na+].[Cl-]',
+        # carbanion rings, ionic metallocene drawings, azolium cations (charge placement decided by the Morgan order)
+        'C[c-]1cccc1', 'CC1=CC=C[CH-]1', '[cH-]1ccc2ccccc12', 'C[c-]1cccc1.[Fe+2].C[c-]1cccc1', 'CC1=C[CH-]C=C1.[Li+]',
+        'CCn1cc[n+](C)c1', 'CCCCn1cc[n+](C)c1', 'C[n+]1cc[nH]c1', 'N[C@@H](Cc1c[nH]c[nH+]1)C(O)=O', 'C[n+]1ccn(C)n1',
+        'CN1C=C[N+](C)=C1', 'C1=C[NH+]=CN1']
 QUERIES = ['[C;D1]', 'C=O', 'c:c', '[N,O;D1]', 'C-C-C', '[C;r6]']
 
 
@@ -112,7 +116,7 @@ def compare(ctx, smis, seeds):
 
 def pick(ctx):
     from .. import molgen
-    n = 60 if ctx.quick else 500
+    n = 40 if ctx.quick else 400
     smis = list(molgen.HANDMADE) + EDGE
     allc = molgen.corpus_smiles()
     smis += [allc[i] for i in ctx.rng.sample(range(len(allc)), n)]
